@@ -643,6 +643,10 @@ func oracleC07(c *oracleCtx) {
 	// recorded inputs and op lines
 	for _, in := range c.inputs {
 		if m := recordedInput(in); m != nil {
+			if h := oaStr(m, "writer-api-text"); h != "" {
+				checkWriterAPI(c, "writer-api", []string{unhex(h)})
+				continue
+			}
 			if h := oaStr(m, "lit"); h != "" {
 				func() {
 					defer func() { _ = recover() }()
@@ -738,6 +742,8 @@ func oracleC07(c *oracleCtx) {
 			}
 		}
 	}
+	// literals printed by a plugin node through the exported writer methods
+	checkWriterAPI(c, "writer-api", writerAPITexts)
 	// pairs: what one element denotes must not depend on its neighbour (an escape followed by a digit or a letter that
 	// would extend it, with or without a value-less line continuation in between)
 	heads := []string{`\0`, `\1`, `\12`, `\x5c`, `\\`, `\u005C`, `\u{5c}`, `\x0`, `\u00`, `\u{4`, `\`}
